@@ -852,6 +852,12 @@ def assemble(template: str, defines: set | None = None) -> Assembled:
             spec = _parse_kv(spec_s)
             text, orgs, info = build_item(spec, sections, substs, defines, log)
             info.flags['mod_path'] = '::'.join(m for m, _ in mod_stack)
+            if 'expect_fns' in spec:
+                # the impl block must contain exactly these fn items (a new method of the trait impl would be invisible to the unit)
+                names = re.findall(r'\bfn\s+([A-Za-z_][A-Za-z0-9_]*)', text)
+                want_fns = [x for x in spec['expect_fns'].split(',') if x]
+                if sorted(names) != sorted(want_fns):
+                    raise LostAnchor(f"{spec['file']}: impl {spec['name']} is expected to define exactly fn {want_fns}, found {names}")
             if 'expect' in spec:
                 got = ' '.join(text.split())
                 if got != ' '.join(spec['expect'].split()):
